@@ -89,7 +89,8 @@ func buildProperties() []Property {
 			Decides:    "no delayed continuation addresses the live clause list by a position computed at call time (the mechanism behind the wrong deletions and the slice-bounds panic); calls iterate clause copies captured eagerly; the live database is written only from code statically reachable from asserta/assertz/retract/abolish/consult, the loader and the registration API.",
 			NotDecided: "that the final database equals the sequential reference model for every history; front/end insertion order.",
 			Rules: []RuleDef{
-				{"R-SNAPSHOT", 2, ruleSnapshot},
+				{"R-SNAPSHOT", 2, func(c *Ctx, r *Report) { ruleSnapshot(c, r); ruleSnapshotPointers(c, r) }},
+				{"R-SLICE-OWNER", 4, ruleSliceOwner},
 				{"R-DB-WRITERS", 6, ruleStateWriters("R-DB-WRITERS", [][2]string{{"VM", "procedures"}, {"userDefined", "clauses"}},
 					[]string{"asserta/1", "assertz/1", "retract/1", "abolish/1", "consult/1"}, "the clause database is updated only by the database-updating predicates, the loader and the registration API")},
 			},
@@ -100,6 +101,7 @@ func buildProperties() []Property {
 			NotDecided: "that the bytecode denotes the source term (argument order, variable numbering) for every clause - a translation-validation question.",
 			Rules: []RuleDef{
 				{"R-RAW-CLOSED", 2, ruleRawClosed},
+				{"R-CLAUSE-BUILD", 2, ruleClauseBuild},
 				{"R-OPERAND-AGREE", 14, ruleOperandAgree},
 				{"R-PUSH-POP", 6, rulePushPop},
 				{"R-HEAD-BODY-SIBLINGS", 5, ruleHeadBodySiblings},
@@ -125,6 +127,7 @@ func buildProperties() []Property {
 			Rules: []RuleDef{
 				{"R-COMMIT-AFTER-SUCCESS", 3, ruleCommitAfterSuccess},
 				{"R-STAGING-LOCAL", 1, ruleStagingLocal},
+				{"R-SLICE-OWNER", 4, ruleSliceOwner},
 			},
 		},
 		{
@@ -137,6 +140,7 @@ func buildProperties() []Property {
 				{"R-ENUM-TOTAL", 15, ruleEnumTotal},
 				{"R-CUT-PARENT", 1, ruleCutParent},
 				{"R-FRESH-VARS", 1, ruleFreshVars},
+				{"R-REGS-RESET", 2, ruleRegsReset},
 				{"R-GLOBAL-ESCAPE", 10, ruleGlobalEscape},
 			},
 		},
@@ -220,6 +224,7 @@ func buildProperties() []Property {
 				{"R-PANIC-BARRIER", 4, rulePanicBarrier},
 				{"R-ERR-ISO", 250, ruleErrIso},
 				{"R-LOOKAHEAD", 20, ruleLookahead},
+				{"R-SNAPSHOT", 2, func(c *Ctx, r *Report) { ruleSnapshot(c, r); ruleSnapshotPointers(c, r) }},
 			},
 		},
 	}
